@@ -74,19 +74,39 @@ Qed.
 Hypothesis vw_nonneg : Forall (fun x => 0 <= x) vw.
 Hypothesis Hhr : hr_ok cf.
 
-Lemma reach_cinv st0 sch st : init_state cf p0 = Some st0 -> run cf st0 sch = Some st -> cinv cf p0 st.
+Lemma hr_ok_on_of_hr_ok : hr_ok cf -> hr_ok_on cf 0.
 Proof.
-  destruct Hg as [H1 H2 H3]. intros Hi Hr.
-  eapply (run_inv cf H1 H2 H3 vw_nonneg Hhr); [exact len_p0| | |exact Hr].
+  intros H d h _ Hh. destruct (H d h Hh) as [A B]. split; [|exact B].
+  intros Hd. destruct (A Hd). split; lia.
+Qed.
+
+Lemma reach_cinv_slack slack st0 sch st : 0 <= slack -> hr_ok_on cf slack ->
+  init_state cf p0 = Some st0 -> run cf st0 sch = Some st -> cinv cf slack p0 st.
+Proof.
+  destruct Hg as [H1 H2 H3]. intros Hs Hon Hi Hr.
+  eapply (run_inv cf H1 H2 H3 vw_nonneg slack Hs Hon); [exact len_p0| | |exact Hr].
   - eapply init_ginv; eauto.
   - eapply init_cinv; eauto.
+Qed.
+
+Lemma reach_cinv st0 sch st : init_state cf p0 = Some st0 -> run cf st0 sch = Some st -> cinv cf 0 p0 st.
+Proof. apply reach_cinv_slack; [lia|apply hr_ok_on_of_hr_ok; exact Hhr]. Qed.
+
+(* the caps up to [slack], for a share that may over-allocate by [slack] in total *)
+Theorem arcswap_caps_slack slack st0 sch st : 0 <= slack -> hr_ok_on cf slack ->
+  init_state cf p0 = Some st0 -> run cf st0 sch = Some st ->
+  forall q, (q < k)%nat -> load vw (g_part st) q <= Z.max (load vw p0 q) (cf_cap cf + slack).
+Proof.
+  intros Hs Hon Hi Hr. eapply cinv_caps; eauto. eapply reach_cinv_slack; eauto.
 Qed.
 
 Theorem arcswap_caps st0 sch st :
   init_state cf p0 = Some st0 -> run cf st0 sch = Some st ->
   forall q, (q < k)%nat -> load vw (g_part st) q <= Z.max (load vw p0 q) (cf_cap cf).
 Proof.
-  intros Hi Hr. eapply cinv_caps; eauto. eapply reach_cinv; eauto.
+  intros Hi Hr q Hq.
+  pose proof (arcswap_caps_slack 0 st0 sch st ltac:(lia) (hr_ok_on_of_hr_ok Hhr) Hi Hr q Hq) as H.
+  now rewrite Z.add_0_r in H.
 Qed.
 
 (* when the outer loop has exited, the totals are the returned Metadata *)
@@ -94,7 +114,7 @@ Theorem arcswap_final st0 sch st :
   init_state cf p0 = Some st0 -> run cf st0 sch = Some st -> g_fin st = true ->
   total_gain st = md_gain (g_md st) /\ total_moves st = md_moves (g_md st).
 Proof.
-  intros Hi Hr Hf. pose proof (ci_fin _ _ _ (reach_cinv _ _ _ Hi Hr) Hf) as E.
+  intros Hi Hr Hf. pose proof (ci_fin _ _ _ _ (reach_cinv _ _ _ Hi Hr) Hf) as E.
   unfold total_gain, total_moves. rewrite E. cbn. lia.
 Qed.
 
@@ -301,7 +321,7 @@ Theorem arcswap_no_panic cf p0 : config_wf cf ->
     /\ exists t st', step cf st t = Some st'.
 Proof.
   intros [H1 H2 H3 H4 H5 H6] Hl Hids. split.
-  - unfold init_state. pose proof (thread_max_total cf H6 (loads (cf_vw cf) p0 (cf_k cf))) as Ht.
+  - unfold init_state. pose proof (thread_max_total cf H6 (wloads (cf_vw cf) p0 (cf_k cf))) as Ht.
     destruct (thread_max cf _); [discriminate|congruence].
   - intros st0 sch st Hi Hr Hnf.
     assert (Hp : pinv cf st).
